@@ -2,40 +2,42 @@
 (* Explorer for the race clause of C07 (C07.norace) on the CMAF-ingest session manager, shaped like
    cmd/livesim2/app/cmaf-ingester.go (cmafIngesterMgr, cmafIngester.start) and api.go (the four REST
    handlers).  API client processes issue Create / Get / Step / Delete calls; every session has its
-   own goroutine (process sess).  Shared variables of the Go code:
+   own goroutine (process sess); optionally the manager is closed (process closer = cmafIngesterMgr.Close).
+   Shared variables of the Go code:
 
        cm.ingesters   map id -> *cmafIngester   written by Create (NewCmafIngester), read by
-                                                startIngester, Get, Step, Delete
-       cm.cancels     map id -> CancelFunc      written by Create (startIngester), read by Delete
+                                                startIngester, Get, Step, Delete, Close
+       cm.cancels     map id -> CancelFunc      written by Create (startIngester), read by Delete, Close
        ing.state      per session               written by the session goroutine (running, stopped),
-                                                read by Delete
+                                                read by Close (and by Delete before commit abe3a53)
        ing.report     per session               appended by the session goroutine, read by Get
        cm.nr          atomic counter            (atomic: never part of a conflict; abstracted to alloc)
 
    Every access is TWO steps (begin / end) so that "two goroutines are inside accesses to the same
-   variable" is a reachable STATE; `acc` holds the accesses in progress with the set of locks held.
+   variable" is a reachable STATE; `acc` holds the accesses in progress with the locks held.
 
        NoConflict == no two processes inside accesses to the same variable, one of them a write,
-                     without a common lock
+                     without a common lock (held exclusively by at least one of them)
 
-   Locked = FALSE is the code as it is (no mutex anywhere): NoConflict is violated - the EXPECTED design
-   counterexample; the NoConflict_<variable> invariants give one counterexample per variable, they are
-   the overlaps the -race child process of harness/drive/c07 provokes.
-   Locked = TRUE is the design with a mutex `mu` around the two maps (proposed_fixes/C16-ingester-mgr-
-   map-race.diff) and a per-session mutex around state/report (proposed_fixes/C07-ingester-state-report-
-   lock.diff): NoConflict holds.
-
-   Two further hazards of the same code are visible in the model and reported as expected counterexamples,
-   they belong to C16 / C08 (not clauses of C07): a Step call on a session whose goroutine has returned
-   blocks for ever on the unbuffered nextSegTrigger channel (StepNotStuck; StepGuard = TRUE models
-   proposed_fixes/C16-step-after-stop.diff), and a Delete call that finds the id in `ingesters` but not
-   yet in `cancels` (between NewCmafIngester and startIngester of a concurrent Create) calls a nil
-   function (NoNilCancel; NilGuard = TRUE models the nil check of the C16 fix). *)
+   Designs (constants):
+     MapsLocked   the two maps are accessed under cm.mu (sync.RWMutex: readers share).  FALSE = the code
+                  before commit abe3a53 (proposed_fixes/C16-ingester-mgr-map-race.diff), TRUE = the code now.
+     SessLocked   state / report of a session are accessed under a per-session mutex.  FALSE = the code now:
+                  NoConflict is VIOLATED on `report` (Get reads what the session goroutine appends) and, with
+                  the closer, on `state` - the EXPECTED design counterexample that the -race child process of
+                  harness/drive/c07 reproduces on the real code; TRUE = proposed_fixes/C07-ingester-state-
+                  report-lock.diff: NoConflict holds.
+     OldDelete    Delete reads ing.state before cancelling (the code before abe3a53).
+   Two further hazards of the older code are kept as expected counterexamples; they belong to C16 / C08, not
+   to C07: a Step call on a session whose goroutine has returned blocks for ever on the unbuffered trigger
+   channel (StepNotStuck; StepGuard = TRUE is the code since 23e3c73), and a Delete call that finds the id
+   in `ingesters` but not yet in `cancels` calls a nil function (NoNilCancel; NilGuard = TRUE = code now). *)
 EXTENDS Integers, Sequences, FiniteSets, TLC
 CONSTANTS Clients,    \* API client goroutines (strings)
           Ids,        \* session ids (strings, disjoint from Clients); also the session goroutines
           MaxCalls,   \* calls per client
-          Locked, StepGuard, NilGuard
+          MapsLocked, SessLocked, OldDelete, StepGuard, NilGuard,
+          WithClose   \* a goroutine runs cmafIngesterMgr.Close() at some point
 
 VING == <<"ingesters", "">>
 VCAN == <<"cancels", "">>
@@ -43,6 +45,7 @@ VSTATE(i) == <<"state", i>>
 VREP(i) == <<"report", i>>
 MU == "mu"
 LockIds == {MU} \cup Ids          \* the per-session mutex is named by the session id
+L(on, k, mode) == IF on THEN {<<k, mode>>} ELSE {}
 
 (* --algorithm ingestmgr {
   variables
@@ -52,23 +55,35 @@ LockIds == {MU} \cup Ids          \* the per-session mutex is named by the sessi
     started = {},                      \* go c.start(ctx) executed
     cancelled = {},                    \* contexts cancelled
     offers = [i \in Ids |-> {}],       \* clients blocked in `nextSegTrigger <- struct{}{}`
-    lock = [k \in LockIds |-> "free"],
-    acc = {},                          \* accesses in progress: <<process, variable, "r"|"w", locks held>>
+    lockW = [k \in LockIds |-> "free"],\* exclusive holder
+    lockR = [k \in LockIds |-> {}],    \* shared holders (RWMutex.RLock)
+    acc = {},                          \* accesses in progress: <<process, variable, "r"|"w", {<<lock, mode>>}>>
     nilcall = FALSE;                   \* a nil CancelFunc was called (panic in the handler)
   define {
-    Held(p) == {k \in LockIds : lock[k] = p}
+    CanR(k) == lockW[k] = "free"
+    CanW(k) == lockW[k] = "free" /\ lockR[k] = {}
+    \* a common lock orders two accesses when at least one side holds it exclusively
+    Protected(x, y) == \E k \in LockIds : \/ (<<k, "W">> \in x[4] /\ (<<k, "W">> \in y[4] \/ <<k, "R">> \in y[4]))
+                                          \/ (<<k, "W">> \in y[4] /\ <<k, "R">> \in x[4])
     ConflictOn(V) == \E x, y \in acc : /\ x[1] # y[1] /\ x[2] = y[2] /\ x[2][1] \in V
                                        /\ (x[3] = "w" \/ y[3] = "w")
-                                       /\ x[4] \cap y[4] = {}
+                                       /\ ~Protected(x, y)
     NoConflict == ~ConflictOn({"ingesters", "cancels", "state", "report"})
     NoConflict_ingesters == ~ConflictOn({"ingesters"})
     NoConflict_cancels == ~ConflictOn({"cancels"})
     NoConflict_state == ~ConflictOn({"state"})
     NoConflict_report == ~ConflictOn({"report"})
     NoNilCancel == ~nilcall
-    \* sanity of the model itself: a lock has one owner, accesses made under Locked carry their lock
-    LockDiscipline == Locked => \A x \in acc : x[4] # {} /\ \A k \in x[4] : lock[k] = x[1]
+    \* sanity of the model itself: the lock words recorded with an access are really held, RW semantics hold
+    LockDiscipline == /\ \A x \in acc : \A lk \in x[4] : IF lk[2] = "W" THEN lockW[lk[1]] = x[1] ELSE x[1] \in lockR[lk[1]]
+                      /\ \A k \in LockIds : lockW[k] # "free" => lockR[k] = {}
   }
+  macro AcqR(on, k) { await ~on \/ CanR(k); if (on) { lockR[k] := lockR[k] \cup {self} } }
+  macro AcqW(on, k) { await ~on \/ CanW(k); if (on) { lockW[k] := self } }
+  macro RelR(on, k) { if (on) { lockR[k] := lockR[k] \ {self} } }
+  macro RelW(on, k) { if (on) { lockW[k] := "free" } }
+  macro Begin(v, kind, locks) { acc := acc \cup {<<self, v, kind, locks>>} }
+  macro End() { acc := {a \in acc : a[1] # self} }
 
   process (client \in Clients)
     variables calls = 0, op = "", id = "", found = FALSE, st = "";
@@ -79,50 +94,31 @@ LockIds == {MU} \cup Ids          \* the per-session mutex is named by the sessi
          or { with (o \in {"get", "step", "delete"}, i \in Ids) { op := o; id := i } };
    c1:   if (op = "create") {
    cr_cas:  with (i \in Ids \ alloc) { id := i; alloc := alloc \cup {i} };          \* cm.nr CAS loop
-   cr_iw:   await (~Locked \/ lock[MU] = "free");                                   \* NewCmafIngester: cm.ingesters[nr] = &c
-            lock := IF Locked THEN [lock EXCEPT ![MU] = self] ELSE lock;
-            acc := acc \cup {<<self, VING, "w", IF Locked THEN {MU} ELSE {}>>};
-   cr_iw2:  acc := {a \in acc : a[1] # self}; ingesters := ingesters \cup {id};
-            lock := IF Locked THEN [lock EXCEPT ![MU] = "free"] ELSE lock;
-   cr_ir:   await (~Locked \/ lock[MU] = "free");                                   \* startIngester: c, ok := cm.ingesters[nr]
-            lock := IF Locked THEN [lock EXCEPT ![MU] = self] ELSE lock;
-            acc := acc \cup {<<self, VING, "r", IF Locked THEN {MU} ELSE {}>>};
-   cr_ir2:  acc := {a \in acc : a[1] # self};
-            lock := IF Locked THEN [lock EXCEPT ![MU] = "free"] ELSE lock;
-   cr_cw:   await (~Locked \/ lock[MU] = "free");                                   \* cm.cancels[nr] = cancel
-            lock := IF Locked THEN [lock EXCEPT ![MU] = self] ELSE lock;
-            acc := acc \cup {<<self, VCAN, "w", IF Locked THEN {MU} ELSE {}>>};
-   cr_cw2:  acc := {a \in acc : a[1] # self}; cancels := cancels \cup {id};
-            lock := IF Locked THEN [lock EXCEPT ![MU] = "free"] ELSE lock;
+   cr_iw:   AcqW(MapsLocked, MU); Begin(VING, "w", L(MapsLocked, MU, "W"));         \* NewCmafIngester: cm.ingesters[nr] = &c
+   cr_iw2:  End(); ingesters := ingesters \cup {id}; RelW(MapsLocked, MU);
+   cr_ir:   AcqR(MapsLocked, MU); Begin(VING, "r", L(MapsLocked, MU, "R"));         \* startIngester: c, ok := cm.ingesters[nr]
+   cr_ir2:  End(); RelR(MapsLocked, MU);
+   cr_cw:   AcqW(MapsLocked, MU); Begin(VCAN, "w", L(MapsLocked, MU, "W"));         \* cm.cancels[nr] = cancel
+   cr_cw2:  End(); cancels := cancels \cup {id}; RelW(MapsLocked, MU);
    cr_go:   started := started \cup {id};                                           \* go c.start(ctx)
          } else {
-   lk:      await (~Locked \/ lock[MU] = "free");                                   \* ing, ok := s.cmafMgr.ingesters[id]
-            lock := IF Locked THEN [lock EXCEPT ![MU] = self] ELSE lock;
-            acc := acc \cup {<<self, VING, "r", IF Locked THEN {MU} ELSE {}>>};
-   lk2:     acc := {a \in acc : a[1] # self}; found := id \in ingesters;
-            lock := IF Locked THEN [lock EXCEPT ![MU] = "free"] ELSE lock;
+   lk:      AcqR(MapsLocked, MU); Begin(VING, "r", L(MapsLocked, MU, "R"));         \* ing, ok := cm.ingesters[id]
+   lk2:     End(); found := id \in ingesters; RelR(MapsLocked, MU);
    disp:    if (found /\ op = "get") {
-   g_r:        await (~Locked \/ lock[id] = "free");                                \* strings.Join(ing.report, "\n")
-               lock := IF Locked THEN [lock EXCEPT ![id] = self] ELSE lock;
-               acc := acc \cup {<<self, VREP(id), "r", IF Locked THEN {id} ELSE {}>>};
-   g_r2:       acc := {a \in acc : a[1] # self};
-               lock := IF Locked THEN [lock EXCEPT ![id] = "free"] ELSE lock;
+   g_r:        AcqW(SessLocked, id); Begin(VREP(id), "r", L(SessLocked, id, "W"));  \* strings.Join(ing.report, "\n")
+   g_r2:       End(); RelW(SessLocked, id);
             } else if (found /\ op = "step") {
    s_send:     offers[id] := offers[id] \cup {self};                                \* c.nextSegTrigger <- struct{}{}
-   s_wait:     await self \notin offers[id] \/ (StepGuard /\ pc[id] = "Done");
+   s_wait:     await self \notin offers[id] \/ (StepGuard /\ pc[id] = "Done");      \* (select with <-c.done)
                offers[id] := offers[id] \ {self};
             } else if (found /\ op = "delete") {
-   d_sr:       await (~Locked \/ lock[id] = "free");                                \* if ci.state == ingesterStateRunning
-               lock := IF Locked THEN [lock EXCEPT ![id] = self] ELSE lock;
-               acc := acc \cup {<<self, VSTATE(id), "r", IF Locked THEN {id} ELSE {}>>};
-   d_sr2:      acc := {a \in acc : a[1] # self}; st := state[id];
-               lock := IF Locked THEN [lock EXCEPT ![id] = "free"] ELSE lock;
-   d_c:        await (~Locked \/ lock[MU] = "free");                                \* s.cmafMgr.cancels[id]()
-               lock := IF Locked THEN [lock EXCEPT ![MU] = self] ELSE lock;
-               acc := acc \cup {<<self, VCAN, "r", IF Locked THEN {MU} ELSE {}>>};
-   d_c2:       acc := {a \in acc : a[1] # self};
-               lock := IF Locked THEN [lock EXCEPT ![MU] = "free"] ELSE lock;
-               if (id \in cancels) { cancelled := cancelled \cup {id} }
+               if (OldDelete) {
+   d_sr:          AcqW(SessLocked, id); Begin(VSTATE(id), "r", L(SessLocked, id, "W")); \* if ci.state == ingesterStateRunning
+   d_sr2:         End(); st := state[id]; RelW(SessLocked, id);
+               };
+   d_c:        AcqR(MapsLocked, MU); Begin(VCAN, "r", L(MapsLocked, MU, "R"));      \* cancel := cm.cancels[id]
+   d_c2:       End(); RelR(MapsLocked, MU);
+               if (id \in cancels) { cancelled := cancelled \cup {id} }             \* cancel()
                else if (~NilGuard) { nilcall := TRUE };
             }
          }
@@ -133,43 +129,53 @@ LockIds == {MU} \cup Ids          \* the per-session mutex is named by the sessi
     variables err = FALSE;
   {
    w0:    await self \in started;
-   i_rw:  await (~Locked \/ lock[self] = "free");                                   \* c.report = append(c.report, "Sent init segment ..")
-          lock := IF Locked THEN [lock EXCEPT ![self] = self] ELSE lock;
-          acc := acc \cup {<<self, VREP(self), "w", IF Locked THEN {self} ELSE {}>>};
-   i_rw2: acc := {a \in acc : a[1] # self};
-          lock := IF Locked THEN [lock EXCEPT ![self] = "free"] ELSE lock;
-          either { skip } or { goto stop };                                         \* init upload failed: return
-   run_w: await (~Locked \/ lock[self] = "free");                                   \* c.state = ingesterStateRunning
-          lock := IF Locked THEN [lock EXCEPT ![self] = self] ELSE lock;
-          acc := acc \cup {<<self, VSTATE(self), "w", IF Locked THEN {self} ELSE {}>>};
-   run_w2: acc := {a \in acc : a[1] # self}; state[self] := "running";
-          lock := IF Locked THEN [lock EXCEPT ![self] = "free"] ELSE lock;
-   loop:  either { await offers[self] # {};                                         \* case <-c.nextSegTrigger
+   i_rw:  AcqW(SessLocked, self); Begin(VREP(self), "w", L(SessLocked, self, "W"));     \* c.report = append(c.report, "Sent init segment ..")
+   i_rw2: End(); RelW(SessLocked, self);
+          either { skip } or { goto stop };                                             \* init upload failed: return
+   run_w: AcqW(SessLocked, self); Begin(VSTATE(self), "w", L(SessLocked, self, "W"));   \* c.state = ingesterStateRunning
+   run_w2: End(); state[self] := "running"; RelW(SessLocked, self);
+   loop:  either { await offers[self] # {};                                             \* case <-c.nextSegTrigger
                    with (c \in offers[self]) { offers[self] := offers[self] \ {c} };
-                   either { err := FALSE } or { err := TRUE } }                     \* sendMediaSegments error?
-          or { await self \in cancelled; goto stop };                               \* case <-ctx.Done()
+                   either { err := FALSE } or { err := TRUE } }                         \* sendMediaSegments error?
+          or { await self \in cancelled; goto stop };                                   \* case <-ctx.Done()
    sent:  if (~err) { goto loop };
-   e_rw:  await (~Locked \/ lock[self] = "free");                                   \* c.report = append(c.report, "Error sending ..")
-          lock := IF Locked THEN [lock EXCEPT ![self] = self] ELSE lock;
-          acc := acc \cup {<<self, VREP(self), "w", IF Locked THEN {self} ELSE {}>>};
-   e_rw2: acc := {a \in acc : a[1] # self};
-          lock := IF Locked THEN [lock EXCEPT ![self] = "free"] ELSE lock;
-   stop:  await (~Locked \/ lock[self] = "free");                                   \* defer: c.state = ingesterStateStopped
-          lock := IF Locked THEN [lock EXCEPT ![self] = self] ELSE lock;
-          acc := acc \cup {<<self, VSTATE(self), "w", IF Locked THEN {self} ELSE {}>>};
-   stop2: acc := {a \in acc : a[1] # self}; state[self] := "stopped";
-          lock := IF Locked THEN [lock EXCEPT ![self] = "free"] ELSE lock;
+   e_rw:  AcqW(SessLocked, self); Begin(VREP(self), "w", L(SessLocked, self, "W"));     \* c.report = append(c.report, "Error sending ..")
+   e_rw2: End(); RelW(SessLocked, self);
+   stop:  AcqW(SessLocked, self); Begin(VSTATE(self), "w", L(SessLocked, self, "W"));   \* defer: c.state = ingesterStateStopped
+   stop2: End(); state[self] := "stopped"; RelW(SessLocked, self);
+  }
+
+  process (closer \in {"closer"})
+    variables todo = {}, tgt = "";
+  {
+   cl0:  await WithClose;
+   cl_c: AcqR(MapsLocked, MU); Begin(VCAN, "r", L(MapsLocked, MU, "R"));                \* for i, cancel := range cm.cancels
+   cl_c2: End(); todo := cancels;
+   cl_l: while (todo # {}) {
+           with (i \in todo) { tgt := i; todo := todo \ {i} };
+   cl_i:   Begin(VING, "r", L(MapsLocked, MU, "R"));                                    \* cm.ingesters[i]
+   cl_i2:  End();
+   cl_s:   AcqW(SessLocked, tgt);                                                       \* .state == ingesterStateRunning
+           Begin(VSTATE(tgt), "r", L(MapsLocked, MU, "R") \cup L(SessLocked, tgt, "W"));
+   cl_s2:  End(); RelW(SessLocked, tgt);
+           if (state[tgt] = "running") { cancelled := cancelled \cup {tgt} };
+         };
+   cl_u: RelR(MapsLocked, MU);
   }
 } *)
 \* BEGIN TRANSLATION
 VARIABLES pc, alloc, ingesters, cancels, state, started, cancelled, offers, 
-          lock, acc, nilcall
+          lockW, lockR, acc, nilcall
 
 (* define statement *)
-Held(p) == {k \in LockIds : lock[k] = p}
+CanR(k) == lockW[k] = "free"
+CanW(k) == lockW[k] = "free" /\ lockR[k] = {}
+
+Protected(x, y) == \E k \in LockIds : \/ (<<k, "W">> \in x[4] /\ (<<k, "W">> \in y[4] \/ <<k, "R">> \in y[4]))
+                                      \/ (<<k, "W">> \in y[4] /\ <<k, "R">> \in x[4])
 ConflictOn(V) == \E x, y \in acc : /\ x[1] # y[1] /\ x[2] = y[2] /\ x[2][1] \in V
                                    /\ (x[3] = "w" \/ y[3] = "w")
-                                   /\ x[4] \cap y[4] = {}
+                                   /\ ~Protected(x, y)
 NoConflict == ~ConflictOn({"ingesters", "cancels", "state", "report"})
 NoConflict_ingesters == ~ConflictOn({"ingesters"})
 NoConflict_cancels == ~ConflictOn({"cancels"})
@@ -177,14 +183,16 @@ NoConflict_state == ~ConflictOn({"state"})
 NoConflict_report == ~ConflictOn({"report"})
 NoNilCancel == ~nilcall
 
-LockDiscipline == Locked => \A x \in acc : x[4] # {} /\ \A k \in x[4] : lock[k] = x[1]
+LockDiscipline == /\ \A x \in acc : \A lk \in x[4] : IF lk[2] = "W" THEN lockW[lk[1]] = x[1] ELSE x[1] \in lockR[lk[1]]
+                  /\ \A k \in LockIds : lockW[k] # "free" => lockR[k] = {}
 
-VARIABLES calls, op, id, found, st, err
+VARIABLES calls, op, id, found, st, err, todo, tgt
 
 vars == << pc, alloc, ingesters, cancels, state, started, cancelled, offers, 
-           lock, acc, nilcall, calls, op, id, found, st, err >>
+           lockW, lockR, acc, nilcall, calls, op, id, found, st, err, todo, 
+           tgt >>
 
-ProcSet == (Clients) \cup (Ids)
+ProcSet == (Clients) \cup (Ids) \cup ({"closer"})
 
 Init == (* Global variables *)
         /\ alloc = {}
@@ -194,7 +202,8 @@ Init == (* Global variables *)
         /\ started = {}
         /\ cancelled = {}
         /\ offers = [i \in Ids |-> {}]
-        /\ lock = [k \in LockIds |-> "free"]
+        /\ lockW = [k \in LockIds |-> "free"]
+        /\ lockR = [k \in LockIds |-> {}]
         /\ acc = {}
         /\ nilcall = FALSE
         (* Process client *)
@@ -205,8 +214,12 @@ Init == (* Global variables *)
         /\ st = [self \in Clients |-> ""]
         (* Process sess *)
         /\ err = [self \in Ids |-> FALSE]
+        (* Process closer *)
+        /\ todo = [self \in {"closer"} |-> {}]
+        /\ tgt = [self \in {"closer"} |-> ""]
         /\ pc = [self \in ProcSet |-> CASE self \in Clients -> "c0"
-                                        [] self \in Ids -> "w0"]
+                                        [] self \in Ids -> "w0"
+                                        [] self \in {"closer"} -> "cl0"]
 
 c0(self) == /\ pc[self] = "c0"
             /\ IF calls[self] < MaxCalls
@@ -224,15 +237,16 @@ c0(self) == /\ pc[self] = "c0"
                   ELSE /\ pc' = [pc EXCEPT ![self] = "Done"]
                        /\ UNCHANGED << calls, op, id, found, st >>
             /\ UNCHANGED << alloc, ingesters, cancels, state, started, 
-                            cancelled, offers, lock, acc, nilcall, err >>
+                            cancelled, offers, lockW, lockR, acc, nilcall, err, 
+                            todo, tgt >>
 
 c1(self) == /\ pc[self] = "c1"
             /\ IF op[self] = "create"
                   THEN /\ pc' = [pc EXCEPT ![self] = "cr_cas"]
                   ELSE /\ pc' = [pc EXCEPT ![self] = "lk"]
             /\ UNCHANGED << alloc, ingesters, cancels, state, started, 
-                            cancelled, offers, lock, acc, nilcall, calls, op, 
-                            id, found, st, err >>
+                            cancelled, offers, lockW, lockR, acc, nilcall, 
+                            calls, op, id, found, st, err, todo, tgt >>
 
 cr_cas(self) == /\ pc[self] = "cr_cas"
                 /\ \E i \in Ids \ alloc:
@@ -240,84 +254,110 @@ cr_cas(self) == /\ pc[self] = "cr_cas"
                      /\ alloc' = (alloc \cup {i})
                 /\ pc' = [pc EXCEPT ![self] = "cr_iw"]
                 /\ UNCHANGED << ingesters, cancels, state, started, cancelled, 
-                                offers, lock, acc, nilcall, calls, op, found, 
-                                st, err >>
+                                offers, lockW, lockR, acc, nilcall, calls, op, 
+                                found, st, err, todo, tgt >>
 
 cr_iw(self) == /\ pc[self] = "cr_iw"
-               /\ (~Locked \/ lock[MU] = "free")
-               /\ lock' = IF Locked THEN [lock EXCEPT ![MU] = self] ELSE lock
-               /\ acc' = (acc \cup {<<self, VING, "w", IF Locked THEN {MU} ELSE {}>>})
+               /\ ~MapsLocked \/ CanW(MU)
+               /\ IF MapsLocked
+                     THEN /\ lockW' = [lockW EXCEPT ![MU] = self]
+                     ELSE /\ TRUE
+                          /\ lockW' = lockW
+               /\ acc' = (acc \cup {<<self, VING, "w", (L(MapsLocked, MU, "W"))>>})
                /\ pc' = [pc EXCEPT ![self] = "cr_iw2"]
                /\ UNCHANGED << alloc, ingesters, cancels, state, started, 
-                               cancelled, offers, nilcall, calls, op, id, 
-                               found, st, err >>
+                               cancelled, offers, lockR, nilcall, calls, op, 
+                               id, found, st, err, todo, tgt >>
 
 cr_iw2(self) == /\ pc[self] = "cr_iw2"
                 /\ acc' = {a \in acc : a[1] # self}
                 /\ ingesters' = (ingesters \cup {id[self]})
-                /\ lock' = IF Locked THEN [lock EXCEPT ![MU] = "free"] ELSE lock
+                /\ IF MapsLocked
+                      THEN /\ lockW' = [lockW EXCEPT ![MU] = "free"]
+                      ELSE /\ TRUE
+                           /\ lockW' = lockW
                 /\ pc' = [pc EXCEPT ![self] = "cr_ir"]
                 /\ UNCHANGED << alloc, cancels, state, started, cancelled, 
-                                offers, nilcall, calls, op, id, found, st, err >>
+                                offers, lockR, nilcall, calls, op, id, found, 
+                                st, err, todo, tgt >>
 
 cr_ir(self) == /\ pc[self] = "cr_ir"
-               /\ (~Locked \/ lock[MU] = "free")
-               /\ lock' = IF Locked THEN [lock EXCEPT ![MU] = self] ELSE lock
-               /\ acc' = (acc \cup {<<self, VING, "r", IF Locked THEN {MU} ELSE {}>>})
+               /\ ~MapsLocked \/ CanR(MU)
+               /\ IF MapsLocked
+                     THEN /\ lockR' = [lockR EXCEPT ![MU] = lockR[MU] \cup {self}]
+                     ELSE /\ TRUE
+                          /\ lockR' = lockR
+               /\ acc' = (acc \cup {<<self, VING, "r", (L(MapsLocked, MU, "R"))>>})
                /\ pc' = [pc EXCEPT ![self] = "cr_ir2"]
                /\ UNCHANGED << alloc, ingesters, cancels, state, started, 
-                               cancelled, offers, nilcall, calls, op, id, 
-                               found, st, err >>
+                               cancelled, offers, lockW, nilcall, calls, op, 
+                               id, found, st, err, todo, tgt >>
 
 cr_ir2(self) == /\ pc[self] = "cr_ir2"
                 /\ acc' = {a \in acc : a[1] # self}
-                /\ lock' = IF Locked THEN [lock EXCEPT ![MU] = "free"] ELSE lock
+                /\ IF MapsLocked
+                      THEN /\ lockR' = [lockR EXCEPT ![MU] = lockR[MU] \ {self}]
+                      ELSE /\ TRUE
+                           /\ lockR' = lockR
                 /\ pc' = [pc EXCEPT ![self] = "cr_cw"]
                 /\ UNCHANGED << alloc, ingesters, cancels, state, started, 
-                                cancelled, offers, nilcall, calls, op, id, 
-                                found, st, err >>
+                                cancelled, offers, lockW, nilcall, calls, op, 
+                                id, found, st, err, todo, tgt >>
 
 cr_cw(self) == /\ pc[self] = "cr_cw"
-               /\ (~Locked \/ lock[MU] = "free")
-               /\ lock' = IF Locked THEN [lock EXCEPT ![MU] = self] ELSE lock
-               /\ acc' = (acc \cup {<<self, VCAN, "w", IF Locked THEN {MU} ELSE {}>>})
+               /\ ~MapsLocked \/ CanW(MU)
+               /\ IF MapsLocked
+                     THEN /\ lockW' = [lockW EXCEPT ![MU] = self]
+                     ELSE /\ TRUE
+                          /\ lockW' = lockW
+               /\ acc' = (acc \cup {<<self, VCAN, "w", (L(MapsLocked, MU, "W"))>>})
                /\ pc' = [pc EXCEPT ![self] = "cr_cw2"]
                /\ UNCHANGED << alloc, ingesters, cancels, state, started, 
-                               cancelled, offers, nilcall, calls, op, id, 
-                               found, st, err >>
+                               cancelled, offers, lockR, nilcall, calls, op, 
+                               id, found, st, err, todo, tgt >>
 
 cr_cw2(self) == /\ pc[self] = "cr_cw2"
                 /\ acc' = {a \in acc : a[1] # self}
                 /\ cancels' = (cancels \cup {id[self]})
-                /\ lock' = IF Locked THEN [lock EXCEPT ![MU] = "free"] ELSE lock
+                /\ IF MapsLocked
+                      THEN /\ lockW' = [lockW EXCEPT ![MU] = "free"]
+                      ELSE /\ TRUE
+                           /\ lockW' = lockW
                 /\ pc' = [pc EXCEPT ![self] = "cr_go"]
                 /\ UNCHANGED << alloc, ingesters, state, started, cancelled, 
-                                offers, nilcall, calls, op, id, found, st, err >>
+                                offers, lockR, nilcall, calls, op, id, found, 
+                                st, err, todo, tgt >>
 
 cr_go(self) == /\ pc[self] = "cr_go"
                /\ started' = (started \cup {id[self]})
                /\ pc' = [pc EXCEPT ![self] = "c0"]
                /\ UNCHANGED << alloc, ingesters, cancels, state, cancelled, 
-                               offers, lock, acc, nilcall, calls, op, id, 
-                               found, st, err >>
+                               offers, lockW, lockR, acc, nilcall, calls, op, 
+                               id, found, st, err, todo, tgt >>
 
 lk(self) == /\ pc[self] = "lk"
-            /\ (~Locked \/ lock[MU] = "free")
-            /\ lock' = IF Locked THEN [lock EXCEPT ![MU] = self] ELSE lock
-            /\ acc' = (acc \cup {<<self, VING, "r", IF Locked THEN {MU} ELSE {}>>})
+            /\ ~MapsLocked \/ CanR(MU)
+            /\ IF MapsLocked
+                  THEN /\ lockR' = [lockR EXCEPT ![MU] = lockR[MU] \cup {self}]
+                  ELSE /\ TRUE
+                       /\ lockR' = lockR
+            /\ acc' = (acc \cup {<<self, VING, "r", (L(MapsLocked, MU, "R"))>>})
             /\ pc' = [pc EXCEPT ![self] = "lk2"]
             /\ UNCHANGED << alloc, ingesters, cancels, state, started, 
-                            cancelled, offers, nilcall, calls, op, id, found, 
-                            st, err >>
+                            cancelled, offers, lockW, nilcall, calls, op, id, 
+                            found, st, err, todo, tgt >>
 
 lk2(self) == /\ pc[self] = "lk2"
              /\ acc' = {a \in acc : a[1] # self}
              /\ found' = [found EXCEPT ![self] = id[self] \in ingesters]
-             /\ lock' = IF Locked THEN [lock EXCEPT ![MU] = "free"] ELSE lock
+             /\ IF MapsLocked
+                   THEN /\ lockR' = [lockR EXCEPT ![MU] = lockR[MU] \ {self}]
+                   ELSE /\ TRUE
+                        /\ lockR' = lockR
              /\ pc' = [pc EXCEPT ![self] = "disp"]
              /\ UNCHANGED << alloc, ingesters, cancels, state, started, 
-                             cancelled, offers, nilcall, calls, op, id, st, 
-                             err >>
+                             cancelled, offers, lockW, nilcall, calls, op, id, 
+                             st, err, todo, tgt >>
 
 disp(self) == /\ pc[self] = "disp"
               /\ IF found[self] /\ op[self] = "get"
@@ -325,74 +365,70 @@ disp(self) == /\ pc[self] = "disp"
                     ELSE /\ IF found[self] /\ op[self] = "step"
                                THEN /\ pc' = [pc EXCEPT ![self] = "s_send"]
                                ELSE /\ IF found[self] /\ op[self] = "delete"
-                                          THEN /\ pc' = [pc EXCEPT ![self] = "d_sr"]
+                                          THEN /\ IF OldDelete
+                                                     THEN /\ pc' = [pc EXCEPT ![self] = "d_sr"]
+                                                     ELSE /\ pc' = [pc EXCEPT ![self] = "d_c"]
                                           ELSE /\ pc' = [pc EXCEPT ![self] = "c0"]
               /\ UNCHANGED << alloc, ingesters, cancels, state, started, 
-                              cancelled, offers, lock, acc, nilcall, calls, op, 
-                              id, found, st, err >>
+                              cancelled, offers, lockW, lockR, acc, nilcall, 
+                              calls, op, id, found, st, err, todo, tgt >>
 
 g_r(self) == /\ pc[self] = "g_r"
-             /\ (~Locked \/ lock[id[self]] = "free")
-             /\ lock' = IF Locked THEN [lock EXCEPT ![id[self]] = self] ELSE lock
-             /\ acc' = (acc \cup {<<self, VREP(id[self]), "r", IF Locked THEN {id[self]} ELSE {}>>})
+             /\ ~SessLocked \/ CanW(id[self])
+             /\ IF SessLocked
+                   THEN /\ lockW' = [lockW EXCEPT ![id[self]] = self]
+                   ELSE /\ TRUE
+                        /\ lockW' = lockW
+             /\ acc' = (acc \cup {<<self, (VREP(id[self])), "r", (L(SessLocked, id[self], "W"))>>})
              /\ pc' = [pc EXCEPT ![self] = "g_r2"]
              /\ UNCHANGED << alloc, ingesters, cancels, state, started, 
-                             cancelled, offers, nilcall, calls, op, id, found, 
-                             st, err >>
+                             cancelled, offers, lockR, nilcall, calls, op, id, 
+                             found, st, err, todo, tgt >>
 
 g_r2(self) == /\ pc[self] = "g_r2"
               /\ acc' = {a \in acc : a[1] # self}
-              /\ lock' = IF Locked THEN [lock EXCEPT ![id[self]] = "free"] ELSE lock
+              /\ IF SessLocked
+                    THEN /\ lockW' = [lockW EXCEPT ![id[self]] = "free"]
+                    ELSE /\ TRUE
+                         /\ lockW' = lockW
               /\ pc' = [pc EXCEPT ![self] = "c0"]
               /\ UNCHANGED << alloc, ingesters, cancels, state, started, 
-                              cancelled, offers, nilcall, calls, op, id, found, 
-                              st, err >>
+                              cancelled, offers, lockR, nilcall, calls, op, id, 
+                              found, st, err, todo, tgt >>
 
 s_send(self) == /\ pc[self] = "s_send"
                 /\ offers' = [offers EXCEPT ![id[self]] = offers[id[self]] \cup {self}]
                 /\ pc' = [pc EXCEPT ![self] = "s_wait"]
                 /\ UNCHANGED << alloc, ingesters, cancels, state, started, 
-                                cancelled, lock, acc, nilcall, calls, op, id, 
-                                found, st, err >>
+                                cancelled, lockW, lockR, acc, nilcall, calls, 
+                                op, id, found, st, err, todo, tgt >>
 
 s_wait(self) == /\ pc[self] = "s_wait"
                 /\ self \notin offers[id[self]] \/ (StepGuard /\ pc[id[self]] = "Done")
                 /\ offers' = [offers EXCEPT ![id[self]] = offers[id[self]] \ {self}]
                 /\ pc' = [pc EXCEPT ![self] = "c0"]
                 /\ UNCHANGED << alloc, ingesters, cancels, state, started, 
-                                cancelled, lock, acc, nilcall, calls, op, id, 
-                                found, st, err >>
-
-d_sr(self) == /\ pc[self] = "d_sr"
-              /\ (~Locked \/ lock[id[self]] = "free")
-              /\ lock' = IF Locked THEN [lock EXCEPT ![id[self]] = self] ELSE lock
-              /\ acc' = (acc \cup {<<self, VSTATE(id[self]), "r", IF Locked THEN {id[self]} ELSE {}>>})
-              /\ pc' = [pc EXCEPT ![self] = "d_sr2"]
-              /\ UNCHANGED << alloc, ingesters, cancels, state, started, 
-                              cancelled, offers, nilcall, calls, op, id, found, 
-                              st, err >>
-
-d_sr2(self) == /\ pc[self] = "d_sr2"
-               /\ acc' = {a \in acc : a[1] # self}
-               /\ st' = [st EXCEPT ![self] = state[id[self]]]
-               /\ lock' = IF Locked THEN [lock EXCEPT ![id[self]] = "free"] ELSE lock
-               /\ pc' = [pc EXCEPT ![self] = "d_c"]
-               /\ UNCHANGED << alloc, ingesters, cancels, state, started, 
-                               cancelled, offers, nilcall, calls, op, id, 
-                               found, err >>
+                                cancelled, lockW, lockR, acc, nilcall, calls, 
+                                op, id, found, st, err, todo, tgt >>
 
 d_c(self) == /\ pc[self] = "d_c"
-             /\ (~Locked \/ lock[MU] = "free")
-             /\ lock' = IF Locked THEN [lock EXCEPT ![MU] = self] ELSE lock
-             /\ acc' = (acc \cup {<<self, VCAN, "r", IF Locked THEN {MU} ELSE {}>>})
+             /\ ~MapsLocked \/ CanR(MU)
+             /\ IF MapsLocked
+                   THEN /\ lockR' = [lockR EXCEPT ![MU] = lockR[MU] \cup {self}]
+                   ELSE /\ TRUE
+                        /\ lockR' = lockR
+             /\ acc' = (acc \cup {<<self, VCAN, "r", (L(MapsLocked, MU, "R"))>>})
              /\ pc' = [pc EXCEPT ![self] = "d_c2"]
              /\ UNCHANGED << alloc, ingesters, cancels, state, started, 
-                             cancelled, offers, nilcall, calls, op, id, found, 
-                             st, err >>
+                             cancelled, offers, lockW, nilcall, calls, op, id, 
+                             found, st, err, todo, tgt >>
 
 d_c2(self) == /\ pc[self] = "d_c2"
               /\ acc' = {a \in acc : a[1] # self}
-              /\ lock' = IF Locked THEN [lock EXCEPT ![MU] = "free"] ELSE lock
+              /\ IF MapsLocked
+                    THEN /\ lockR' = [lockR EXCEPT ![MU] = lockR[MU] \ {self}]
+                    ELSE /\ TRUE
+                         /\ lockR' = lockR
               /\ IF id[self] \in cancels
                     THEN /\ cancelled' = (cancelled \cup {id[self]})
                          /\ UNCHANGED nilcall
@@ -403,57 +439,95 @@ d_c2(self) == /\ pc[self] = "d_c2"
                          /\ UNCHANGED cancelled
               /\ pc' = [pc EXCEPT ![self] = "c0"]
               /\ UNCHANGED << alloc, ingesters, cancels, state, started, 
-                              offers, calls, op, id, found, st, err >>
+                              offers, lockW, calls, op, id, found, st, err, 
+                              todo, tgt >>
+
+d_sr(self) == /\ pc[self] = "d_sr"
+              /\ ~SessLocked \/ CanW(id[self])
+              /\ IF SessLocked
+                    THEN /\ lockW' = [lockW EXCEPT ![id[self]] = self]
+                    ELSE /\ TRUE
+                         /\ lockW' = lockW
+              /\ acc' = (acc \cup {<<self, (VSTATE(id[self])), "r", (L(SessLocked, id[self], "W"))>>})
+              /\ pc' = [pc EXCEPT ![self] = "d_sr2"]
+              /\ UNCHANGED << alloc, ingesters, cancels, state, started, 
+                              cancelled, offers, lockR, nilcall, calls, op, id, 
+                              found, st, err, todo, tgt >>
+
+d_sr2(self) == /\ pc[self] = "d_sr2"
+               /\ acc' = {a \in acc : a[1] # self}
+               /\ st' = [st EXCEPT ![self] = state[id[self]]]
+               /\ IF SessLocked
+                     THEN /\ lockW' = [lockW EXCEPT ![id[self]] = "free"]
+                     ELSE /\ TRUE
+                          /\ lockW' = lockW
+               /\ pc' = [pc EXCEPT ![self] = "d_c"]
+               /\ UNCHANGED << alloc, ingesters, cancels, state, started, 
+                               cancelled, offers, lockR, nilcall, calls, op, 
+                               id, found, err, todo, tgt >>
 
 client(self) == c0(self) \/ c1(self) \/ cr_cas(self) \/ cr_iw(self)
                    \/ cr_iw2(self) \/ cr_ir(self) \/ cr_ir2(self)
                    \/ cr_cw(self) \/ cr_cw2(self) \/ cr_go(self)
                    \/ lk(self) \/ lk2(self) \/ disp(self) \/ g_r(self)
                    \/ g_r2(self) \/ s_send(self) \/ s_wait(self)
-                   \/ d_sr(self) \/ d_sr2(self) \/ d_c(self) \/ d_c2(self)
+                   \/ d_c(self) \/ d_c2(self) \/ d_sr(self) \/ d_sr2(self)
 
 w0(self) == /\ pc[self] = "w0"
             /\ self \in started
             /\ pc' = [pc EXCEPT ![self] = "i_rw"]
             /\ UNCHANGED << alloc, ingesters, cancels, state, started, 
-                            cancelled, offers, lock, acc, nilcall, calls, op, 
-                            id, found, st, err >>
+                            cancelled, offers, lockW, lockR, acc, nilcall, 
+                            calls, op, id, found, st, err, todo, tgt >>
 
 i_rw(self) == /\ pc[self] = "i_rw"
-              /\ (~Locked \/ lock[self] = "free")
-              /\ lock' = IF Locked THEN [lock EXCEPT ![self] = self] ELSE lock
-              /\ acc' = (acc \cup {<<self, VREP(self), "w", IF Locked THEN {self} ELSE {}>>})
+              /\ ~SessLocked \/ CanW(self)
+              /\ IF SessLocked
+                    THEN /\ lockW' = [lockW EXCEPT ![self] = self]
+                    ELSE /\ TRUE
+                         /\ lockW' = lockW
+              /\ acc' = (acc \cup {<<self, (VREP(self)), "w", (L(SessLocked, self, "W"))>>})
               /\ pc' = [pc EXCEPT ![self] = "i_rw2"]
               /\ UNCHANGED << alloc, ingesters, cancels, state, started, 
-                              cancelled, offers, nilcall, calls, op, id, found, 
-                              st, err >>
+                              cancelled, offers, lockR, nilcall, calls, op, id, 
+                              found, st, err, todo, tgt >>
 
 i_rw2(self) == /\ pc[self] = "i_rw2"
                /\ acc' = {a \in acc : a[1] # self}
-               /\ lock' = IF Locked THEN [lock EXCEPT ![self] = "free"] ELSE lock
+               /\ IF SessLocked
+                     THEN /\ lockW' = [lockW EXCEPT ![self] = "free"]
+                     ELSE /\ TRUE
+                          /\ lockW' = lockW
                /\ \/ /\ TRUE
                      /\ pc' = [pc EXCEPT ![self] = "run_w"]
                   \/ /\ pc' = [pc EXCEPT ![self] = "stop"]
                /\ UNCHANGED << alloc, ingesters, cancels, state, started, 
-                               cancelled, offers, nilcall, calls, op, id, 
-                               found, st, err >>
+                               cancelled, offers, lockR, nilcall, calls, op, 
+                               id, found, st, err, todo, tgt >>
 
 run_w(self) == /\ pc[self] = "run_w"
-               /\ (~Locked \/ lock[self] = "free")
-               /\ lock' = IF Locked THEN [lock EXCEPT ![self] = self] ELSE lock
-               /\ acc' = (acc \cup {<<self, VSTATE(self), "w", IF Locked THEN {self} ELSE {}>>})
+               /\ ~SessLocked \/ CanW(self)
+               /\ IF SessLocked
+                     THEN /\ lockW' = [lockW EXCEPT ![self] = self]
+                     ELSE /\ TRUE
+                          /\ lockW' = lockW
+               /\ acc' = (acc \cup {<<self, (VSTATE(self)), "w", (L(SessLocked, self, "W"))>>})
                /\ pc' = [pc EXCEPT ![self] = "run_w2"]
                /\ UNCHANGED << alloc, ingesters, cancels, state, started, 
-                               cancelled, offers, nilcall, calls, op, id, 
-                               found, st, err >>
+                               cancelled, offers, lockR, nilcall, calls, op, 
+                               id, found, st, err, todo, tgt >>
 
 run_w2(self) == /\ pc[self] = "run_w2"
                 /\ acc' = {a \in acc : a[1] # self}
                 /\ state' = [state EXCEPT ![self] = "running"]
-                /\ lock' = IF Locked THEN [lock EXCEPT ![self] = "free"] ELSE lock
+                /\ IF SessLocked
+                      THEN /\ lockW' = [lockW EXCEPT ![self] = "free"]
+                      ELSE /\ TRUE
+                           /\ lockW' = lockW
                 /\ pc' = [pc EXCEPT ![self] = "loop"]
                 /\ UNCHANGED << alloc, ingesters, cancels, started, cancelled, 
-                                offers, nilcall, calls, op, id, found, st, err >>
+                                offers, lockR, nilcall, calls, op, id, found, 
+                                st, err, todo, tgt >>
 
 loop(self) == /\ pc[self] = "loop"
               /\ \/ /\ offers[self] # {}
@@ -466,54 +540,161 @@ loop(self) == /\ pc[self] = "loop"
                     /\ pc' = [pc EXCEPT ![self] = "stop"]
                     /\ UNCHANGED <<offers, err>>
               /\ UNCHANGED << alloc, ingesters, cancels, state, started, 
-                              cancelled, lock, acc, nilcall, calls, op, id, 
-                              found, st >>
+                              cancelled, lockW, lockR, acc, nilcall, calls, op, 
+                              id, found, st, todo, tgt >>
 
 sent(self) == /\ pc[self] = "sent"
               /\ IF ~err[self]
                     THEN /\ pc' = [pc EXCEPT ![self] = "loop"]
                     ELSE /\ pc' = [pc EXCEPT ![self] = "e_rw"]
               /\ UNCHANGED << alloc, ingesters, cancels, state, started, 
-                              cancelled, offers, lock, acc, nilcall, calls, op, 
-                              id, found, st, err >>
+                              cancelled, offers, lockW, lockR, acc, nilcall, 
+                              calls, op, id, found, st, err, todo, tgt >>
 
 e_rw(self) == /\ pc[self] = "e_rw"
-              /\ (~Locked \/ lock[self] = "free")
-              /\ lock' = IF Locked THEN [lock EXCEPT ![self] = self] ELSE lock
-              /\ acc' = (acc \cup {<<self, VREP(self), "w", IF Locked THEN {self} ELSE {}>>})
+              /\ ~SessLocked \/ CanW(self)
+              /\ IF SessLocked
+                    THEN /\ lockW' = [lockW EXCEPT ![self] = self]
+                    ELSE /\ TRUE
+                         /\ lockW' = lockW
+              /\ acc' = (acc \cup {<<self, (VREP(self)), "w", (L(SessLocked, self, "W"))>>})
               /\ pc' = [pc EXCEPT ![self] = "e_rw2"]
               /\ UNCHANGED << alloc, ingesters, cancels, state, started, 
-                              cancelled, offers, nilcall, calls, op, id, found, 
-                              st, err >>
+                              cancelled, offers, lockR, nilcall, calls, op, id, 
+                              found, st, err, todo, tgt >>
 
 e_rw2(self) == /\ pc[self] = "e_rw2"
                /\ acc' = {a \in acc : a[1] # self}
-               /\ lock' = IF Locked THEN [lock EXCEPT ![self] = "free"] ELSE lock
+               /\ IF SessLocked
+                     THEN /\ lockW' = [lockW EXCEPT ![self] = "free"]
+                     ELSE /\ TRUE
+                          /\ lockW' = lockW
                /\ pc' = [pc EXCEPT ![self] = "stop"]
                /\ UNCHANGED << alloc, ingesters, cancels, state, started, 
-                               cancelled, offers, nilcall, calls, op, id, 
-                               found, st, err >>
+                               cancelled, offers, lockR, nilcall, calls, op, 
+                               id, found, st, err, todo, tgt >>
 
 stop(self) == /\ pc[self] = "stop"
-              /\ (~Locked \/ lock[self] = "free")
-              /\ lock' = IF Locked THEN [lock EXCEPT ![self] = self] ELSE lock
-              /\ acc' = (acc \cup {<<self, VSTATE(self), "w", IF Locked THEN {self} ELSE {}>>})
+              /\ ~SessLocked \/ CanW(self)
+              /\ IF SessLocked
+                    THEN /\ lockW' = [lockW EXCEPT ![self] = self]
+                    ELSE /\ TRUE
+                         /\ lockW' = lockW
+              /\ acc' = (acc \cup {<<self, (VSTATE(self)), "w", (L(SessLocked, self, "W"))>>})
               /\ pc' = [pc EXCEPT ![self] = "stop2"]
               /\ UNCHANGED << alloc, ingesters, cancels, state, started, 
-                              cancelled, offers, nilcall, calls, op, id, found, 
-                              st, err >>
+                              cancelled, offers, lockR, nilcall, calls, op, id, 
+                              found, st, err, todo, tgt >>
 
 stop2(self) == /\ pc[self] = "stop2"
                /\ acc' = {a \in acc : a[1] # self}
                /\ state' = [state EXCEPT ![self] = "stopped"]
-               /\ lock' = IF Locked THEN [lock EXCEPT ![self] = "free"] ELSE lock
+               /\ IF SessLocked
+                     THEN /\ lockW' = [lockW EXCEPT ![self] = "free"]
+                     ELSE /\ TRUE
+                          /\ lockW' = lockW
                /\ pc' = [pc EXCEPT ![self] = "Done"]
                /\ UNCHANGED << alloc, ingesters, cancels, started, cancelled, 
-                               offers, nilcall, calls, op, id, found, st, err >>
+                               offers, lockR, nilcall, calls, op, id, found, 
+                               st, err, todo, tgt >>
 
 sess(self) == w0(self) \/ i_rw(self) \/ i_rw2(self) \/ run_w(self)
                  \/ run_w2(self) \/ loop(self) \/ sent(self) \/ e_rw(self)
                  \/ e_rw2(self) \/ stop(self) \/ stop2(self)
+
+cl0(self) == /\ pc[self] = "cl0"
+             /\ WithClose
+             /\ pc' = [pc EXCEPT ![self] = "cl_c"]
+             /\ UNCHANGED << alloc, ingesters, cancels, state, started, 
+                             cancelled, offers, lockW, lockR, acc, nilcall, 
+                             calls, op, id, found, st, err, todo, tgt >>
+
+cl_c(self) == /\ pc[self] = "cl_c"
+              /\ ~MapsLocked \/ CanR(MU)
+              /\ IF MapsLocked
+                    THEN /\ lockR' = [lockR EXCEPT ![MU] = lockR[MU] \cup {self}]
+                    ELSE /\ TRUE
+                         /\ lockR' = lockR
+              /\ acc' = (acc \cup {<<self, VCAN, "r", (L(MapsLocked, MU, "R"))>>})
+              /\ pc' = [pc EXCEPT ![self] = "cl_c2"]
+              /\ UNCHANGED << alloc, ingesters, cancels, state, started, 
+                              cancelled, offers, lockW, nilcall, calls, op, id, 
+                              found, st, err, todo, tgt >>
+
+cl_c2(self) == /\ pc[self] = "cl_c2"
+               /\ acc' = {a \in acc : a[1] # self}
+               /\ todo' = [todo EXCEPT ![self] = cancels]
+               /\ pc' = [pc EXCEPT ![self] = "cl_l"]
+               /\ UNCHANGED << alloc, ingesters, cancels, state, started, 
+                               cancelled, offers, lockW, lockR, nilcall, calls, 
+                               op, id, found, st, err, tgt >>
+
+cl_l(self) == /\ pc[self] = "cl_l"
+              /\ IF todo[self] # {}
+                    THEN /\ \E i \in todo[self]:
+                              /\ tgt' = [tgt EXCEPT ![self] = i]
+                              /\ todo' = [todo EXCEPT ![self] = todo[self] \ {i}]
+                         /\ pc' = [pc EXCEPT ![self] = "cl_i"]
+                    ELSE /\ pc' = [pc EXCEPT ![self] = "cl_u"]
+                         /\ UNCHANGED << todo, tgt >>
+              /\ UNCHANGED << alloc, ingesters, cancels, state, started, 
+                              cancelled, offers, lockW, lockR, acc, nilcall, 
+                              calls, op, id, found, st, err >>
+
+cl_i(self) == /\ pc[self] = "cl_i"
+              /\ acc' = (acc \cup {<<self, VING, "r", (L(MapsLocked, MU, "R"))>>})
+              /\ pc' = [pc EXCEPT ![self] = "cl_i2"]
+              /\ UNCHANGED << alloc, ingesters, cancels, state, started, 
+                              cancelled, offers, lockW, lockR, nilcall, calls, 
+                              op, id, found, st, err, todo, tgt >>
+
+cl_i2(self) == /\ pc[self] = "cl_i2"
+               /\ acc' = {a \in acc : a[1] # self}
+               /\ pc' = [pc EXCEPT ![self] = "cl_s"]
+               /\ UNCHANGED << alloc, ingesters, cancels, state, started, 
+                               cancelled, offers, lockW, lockR, nilcall, calls, 
+                               op, id, found, st, err, todo, tgt >>
+
+cl_s(self) == /\ pc[self] = "cl_s"
+              /\ ~SessLocked \/ CanW(tgt[self])
+              /\ IF SessLocked
+                    THEN /\ lockW' = [lockW EXCEPT ![tgt[self]] = self]
+                    ELSE /\ TRUE
+                         /\ lockW' = lockW
+              /\ acc' = (acc \cup {<<self, (VSTATE(tgt[self])), "r", (L(MapsLocked, MU, "R") \cup L(SessLocked, tgt[self], "W"))>>})
+              /\ pc' = [pc EXCEPT ![self] = "cl_s2"]
+              /\ UNCHANGED << alloc, ingesters, cancels, state, started, 
+                              cancelled, offers, lockR, nilcall, calls, op, id, 
+                              found, st, err, todo, tgt >>
+
+cl_s2(self) == /\ pc[self] = "cl_s2"
+               /\ acc' = {a \in acc : a[1] # self}
+               /\ IF SessLocked
+                     THEN /\ lockW' = [lockW EXCEPT ![tgt[self]] = "free"]
+                     ELSE /\ TRUE
+                          /\ lockW' = lockW
+               /\ IF state[tgt[self]] = "running"
+                     THEN /\ cancelled' = (cancelled \cup {tgt[self]})
+                     ELSE /\ TRUE
+                          /\ UNCHANGED cancelled
+               /\ pc' = [pc EXCEPT ![self] = "cl_l"]
+               /\ UNCHANGED << alloc, ingesters, cancels, state, started, 
+                               offers, lockR, nilcall, calls, op, id, found, 
+                               st, err, todo, tgt >>
+
+cl_u(self) == /\ pc[self] = "cl_u"
+              /\ IF MapsLocked
+                    THEN /\ lockR' = [lockR EXCEPT ![MU] = lockR[MU] \ {self}]
+                    ELSE /\ TRUE
+                         /\ lockR' = lockR
+              /\ pc' = [pc EXCEPT ![self] = "Done"]
+              /\ UNCHANGED << alloc, ingesters, cancels, state, started, 
+                              cancelled, offers, lockW, acc, nilcall, calls, 
+                              op, id, found, st, err, todo, tgt >>
+
+closer(self) == cl0(self) \/ cl_c(self) \/ cl_c2(self) \/ cl_l(self)
+                   \/ cl_i(self) \/ cl_i2(self) \/ cl_s(self)
+                   \/ cl_s2(self) \/ cl_u(self)
 
 (* Allow infinite stuttering to prevent deadlock on termination. *)
 Terminating == /\ \A self \in ProcSet: pc[self] = "Done"
@@ -521,6 +702,7 @@ Terminating == /\ \A self \in ProcSet: pc[self] = "Done"
 
 Next == (\E self \in Clients: client(self))
            \/ (\E self \in Ids: sess(self))
+           \/ (\E self \in {"closer"}: closer(self))
            \/ Terminating
 
 Spec == Init /\ [][Next]_vars
